@@ -555,6 +555,11 @@ def run(chk):
         feats = D.feature_docs()
         n_rand = 40 if quick else 400
         valid_docs = [("feature:" + f, d) for f, d in feats] + [("random:" + "+".join(l), d) for l, d in (D.random_valid(committed, rng, feats) for _ in range(n_rand))]
+        # shape coverage derived from lsp.schema.json: every (definition, property) x every alternative / listed type / enum value of its
+        # schema x array lengths 0, 1, 2 - a converter that normalises one shape into another fails on one of these documents
+        cov = D.schema_coverage(schema)
+        cov_info = {"schema:" + l: i for l, _, i in cov}
+        valid_docs += [("schema:" + l, d) for l, d, _ in cov]
         invalid_docs = [("invalid:" + l, d) for l, d in D.invalid_edits() + D.invalid_extensions()]
         docs = [("committed", committed)] + valid_docs + invalid_docs
         if not quick:     # every declaration of the committed document on its own
@@ -571,9 +576,14 @@ def run(chk):
 
         # oracle on the real code: every document valid under the pinned reading loads and reads back
         loader_fail = []
+        n_cov_ok = 0
         for (lab, d), l, v in zip(docs, loads, jsvr["MetaModel"]):
+            if lab in cov_info and not v:
+                failed.append(("generator", "c18_docs.schema_coverage", "document %s is not valid under root MetaModel for the real jsonschema" % lab))
             if v and D.pinned_ok(d):
                 bad = (not l["ok"]) or not D.sim(l["readback"], d)
+                if lab in cov_info and not bad:
+                    n_cov_ok += 1
                 if bad:
                     feat = lab.split(":", 1)[1] if lab.startswith("feature:") else None
                     key = ("loader:" + feat) if feat else "loader:doc:" + lab[:60]
@@ -582,12 +592,23 @@ def run(chk):
                     used = re.findall(r"add-feature:([\w.\-]+)", lab)
                     if lab.startswith("random:") and any(("loader:" + u) in viol or ("loader:" + u) in known_keys for u in used):
                         continue        # explained by a feature that already fails on its own
+                    if lab in cov_info:
+                        ci = cov_info[lab]
+                        if any(("loader:" + u) in viol or ("loader:" + u) in known_keys for u in ci["uses"]):
+                            continue    # uses a type kind / annotation that already fails on its own (recorded or reported above)
+                        key = "loader:schema:%s:%s" % (ci["site"], ci["shape"])      # one report per (site, shape), not per alternative
                     if key not in known_keys:
                         loader_fail.append((0 if lab.startswith("feature:") else 1, len(D.strict_dumps(d)), key,
                                             {"kind": "loader", "label": lab, "input": {"doc": d}, "expected": "loads; read-back ~ document",
-                                             "observed_impl": ("raises %s: %s" % (l["exc"], l["msg"][:200])) if not l["ok"] else "read-back differs from the document"}))
+                                             "observed_impl": ("raises %s: %s" % (l["exc"], l["msg"][:200])) if not l["ok"] else "read-back differs from the document",
+                                             "read_back": l.get("readback") if l["ok"] and len(D.strict_dumps(d)) < 4000 else None}))
         loader_fail.sort(key=lambda x: x[:3])
         chk.extra["loader_oracle_failures"] = len(loader_fail)
+        chk.extra["schema_shape_coverage"] = {"documents": len(cov), "sites": len({i["site"] for _, _, i in cov}), "load_and_read_back": n_cov_ok,
+                                              "array_sites_with_lengths_0_1_2": sorted({i["site"] for _, _, i in cov if i["shape"] == "array2"})}
+        chk.obligation("search:every-schema-shape-loads-and-reads-back", not any(k.startswith("loader:schema:") for _, _, k, _ in loader_fail),
+                       "%d documents derived from lsp.schema.json (every alternative, arrays of length 0/1/2), %d load and read back (the others use a recorded finding)"
+                       % (len(cov), n_cov_ok))
         for _, _, key, obj in loader_fail[:8]:      # smallest documents first; a systemic defect is not reported forty times
             add_violation(key, dict(obj, failing_documents_in_this_run=len(loader_fail)))
         # create_lsp_model
@@ -631,6 +652,26 @@ def run(chk):
         epairs = [(i, j) for i in range(len(fam)) for j in range(len(fam))]
         muts = skeleton_mutations([d for f, d in feats if f in ("or", "literal", "map-refkey", "tuple", "and", "extends-mixins", "enumerations", "message-all-optionals", "params-array", "array")],
                                   rng, 60 if quick else 100000)
+        # shape pairs: two documents that differ only in the shape chosen at one site of the schema (single vs [x], [] vs [x], [x] vs [x, y], ...)
+        by_site = {}
+        for l, d, i in cov:
+            if i["site"].split(".")[1] in D.SKNAMES:
+                by_site.setdefault(i["site"], []).append((l, d, i))
+        shape_pairs = []
+        for site, xs in sorted(by_site.items()):
+            first = {}
+            for x in xs:
+                first.setdefault(x[2]["shape"], x)
+            reps = list(first.values())
+            cand = [(a, b) for n, a in enumerate(reps) for b in reps[n + 1:]]                       # one representative per shape, all pairs
+            cand += [(xs[n], xs[n + 1]) for n in range(len(xs) - 1)]                                 # neighbouring variants
+            for a, b in cand:
+                shape_pairs.append(("shape:%s:%s|%s" % (site, a[2]["shape"], b[2]["shape"]), a[1], b[1]))
+        if quick:       # every pair across array shapes (T vs [T], [] vs [T], [T] vs [T, U]: what a normalising converter confuses), a sample of the rest
+            cross = [p for p in shape_pairs if "array" in p[0] and p[0].split(":")[-1].split("|")[0] != p[0].split("|")[-1]]
+            rest = [p for p in shape_pairs if p not in cross]
+            shape_pairs = cross + rng.sample(rest, min(40, len(rest)))
+        muts = muts + shape_pairs
         edocs = [d for _, d in fam]
         for lab, a, b in muts:
             edocs += [a, b]
@@ -705,7 +746,7 @@ def run(chk):
                 cases.append({"kind": "load", "doc": d, "real": l}); meta.append(("load", lab))
             for r in roots:
                 for (lab, d), v in zip(docs, jsvr[r]):
-                    if r == "file" and lab.startswith("random:"):
+                    if r == "file" and (lab.startswith("random:") or lab.startswith("schema:")):
                         continue
                     cases.append({"kind": "jsv", "root": r, "doc": d, "real": v}); meta.append(("jsv:" + r, lab))
             for g, c in zip(groups, creates):
